@@ -38,6 +38,8 @@ Prop_Sound == Sound(Class, Little, SymTab, StrTab, t.q, Res)
 
 Emit == PrintT(ToJson([op |-> "sysv_find", class |-> Class, es |-> "LE", hash |-> Table(t.b, t.c), sym |-> SymTab,
                        str |-> StrTab, name |-> t.q, wf |-> FALSE, first |-> 1,
-                       exp |-> IF Res.out = "ok" THEN [out |-> "ok", idx |-> Res.idx, sym |-> Res.sym] ELSE [out |-> Res.out]]))
+                       \* arbitrary link structures are not well-formed tables: a hit must be sound (it is then unique here:
+                       \* names are distinct), everything else is left open -- termination is what is being replayed
+                       exp |-> IF Res.out = "ok" /\ t.q # <<>> THEN [out |-> "ok", idx |-> Res.idx, sym |-> Res.sym] ELSE [x \in {} |-> 0]]))
 Inv == Prop_C16 /\ Prop_Sound /\ Emit
 =============================================================================
